@@ -8,11 +8,18 @@ Streams (DESIGN 3.2):
   distance  Atoms.distance        vs  model `namedDistance`, spec `specDistance` (metric tensor) and the harness's own
                                       Euclidean distance
   around    Atom.find_atoms_around vs model `findAround`,   spec `specAround` and the harness's own brute force
+The atoms the geometry functions are asked about enter the model in every way the API offers (kind `route`): parsed
+from the file text, made by `Shelxfile.add_atom()` (Cartesian coordinates by misc.frac_to_cart), moved with the
+`Atom.frac_coords` setter *after* the functions have been called once on the same object (a history), and (kind
+`grow`) the symmetry-generated atoms returned by `Shelxfile.grow()`; mostly in clearly oblique cells. The neighbour
+search likewise sees atoms made by add_atom() and an atom moved between two rounds of queries.
 Every case is a real file read with `read_string`; the atoms' fractional coordinates are computed from the
 Cartesian points with the harness's own orthogonalisation (upper triangular, right handed), written with 18
 decimals, and the reference positions are re-computed from the numbers that were actually written.
 Only what the property states is observed: the returned numbers / the returned set of atoms.
 """
+import contextlib
+import io
 import math
 
 from .. import core
@@ -112,9 +119,9 @@ def fnum(x):
 # ------------------------------------------------------------------------------------------------
 # generators
 
-def rand_cell(rng, big):
+def rand_cell(rng, big, kinds=None):
     lo, hi = (22.0, 45.0) if big else (6.0, 30.0)
-    kind = rng.choice(['cubic40', 'ortho', 'mono', 'tric', 'tric', 'hex'])
+    kind = kinds and rng.choice(kinds) or rng.choice(['cubic40', 'ortho', 'mono', 'tric', 'tric', 'hex', 'rhomb'])
     a, b, c = (round(rng.uniform(lo, hi), 3) for _ in range(3))
     al = be = ga = 90.0
     if kind == 'cubic40':
@@ -126,6 +133,9 @@ def rand_cell(rng, big):
     elif kind == 'hex':
         b = a
         ga = 120.0
+    elif kind == 'rhomb':
+        b = c = a
+        al = be = ga = round(rng.uniform(58, 112), 2)
     return [a, b, c, al, be, ga], kind
 
 
@@ -199,6 +209,60 @@ CLOCKWISE = dict(WITNESS, mode='built', pts=[[1.0, 0.0, 0.0], [0.0, 0.0, 0.0], [
 TYPO = dict(WITNESS, mode='built', pts=[[0.0, -1.0, -2.0], [0.0, 0.0, 0.0], [0.0, 0.0, 1.0], [1.0, 0.0, 1.0]], phi=90.0)
 
 
+OBLIQUE = ['tric', 'tric', 'tric', 'rhomb', 'rhomb', 'hex', 'mono', 'ortho']
+ROUTES = ['parsed', 'added', 'moved', 'added+moved']
+
+
+def general(pts):
+    return nondegenerate(pts) and abs(math.sin(math.radians(ref_torsion(*pts)))) > 0.02
+
+
+def make_route(rng):
+    """four atoms C1..C4 that enter the model in different ways; two rounds of observations on ONE Shelxfile object:
+    after the add_atom() calls (moved atoms still at their first position), and after the frac_coords assignments"""
+    cell, kind = rand_cell(rng, big=False, kinds=OBLIQUE)
+    m = ortho(cell)
+    while True:
+        routes = [rng.choice(ROUTES) for _ in range(4)]
+        if any(r != 'parsed' for r in routes):
+            break
+    while True:
+        phi = rng.uniform(-179, 179)
+        org = matvec(m, [rng.uniform(-0.3, 1.3) for _ in range(3)])
+        pts = move(build_quadruple(rng, phi), quat_matrix(rand_quat(rng)), org)
+        first = [add(p, [rng.uniform(-0.9, 0.9) for _ in range(3)]) if 'moved' in r else list(p) for p, r in zip(pts, routes)]
+        if general(pts) and general(first):
+            break
+    return dict(kind='route', cellkind=kind, cell=cell, routes=routes, first=first, pts=pts)
+
+
+def make_grow(rng):
+    """a three-atom chain next to the inversion centre (1/2,1/2,1/2) of a centrosymmetric structure: C1-C1' is a bond
+    across the centre, so grow() returns the chain and its image C3-C2-C1-C1'-C2'-C3'"""
+    cell, kind = rand_cell(rng, big=False, kinds=OBLIQUE)
+    m = ortho(cell)
+    cen = matvec(m, [0.5, 0.5, 0.5])
+    for _ in range(1000):
+        u = rand_unit(rng)
+        n = norm(u)
+        r = rng.uniform(0.66, 0.77)
+        c1 = add(cen, [x / n * r for x in u])
+        v = rand_unit(rng)
+        c2 = add(c1, [x / norm(v) * rng.uniform(1.38, 1.54) for x in v])
+        w = rand_unit(rng)
+        c3 = add(c2, [x / norm(w) * rng.uniform(1.38, 1.54) for x in w])
+        pts = [c1, c2, c3]
+        img = [sub([2 * x for x in cen], p) for p in pts]
+        ok = norm(sub(c3, c1)) > 2.2
+        for i, p in enumerate(pts):
+            for j, q in enumerate(img):
+                if (i, j) != (0, 0) and norm(sub(p, q)) < 2.3:
+                    ok = False
+        if ok and general([c3, c2, c1, img[0]]) and general([c2, c1, img[0], img[2]]):
+            return dict(kind='grow', cellkind=kind, cell=cell, pts=pts)
+    raise RuntimeError('no chain found')
+
+
 def make_around(rng):
     cell, kind = rand_cell(rng, big=False)
     m = ortho(cell)
@@ -231,16 +295,32 @@ def make_around(rng):
     body = [a for a in atoms if not a['q']]
     body.sort(key=lambda a: (a['resi'],))
     atoms = body + [a for a in atoms if a['q']]
-    queries = []
-    for _ in range(rng.randint(3, 6)):
+    # atoms that are not in the file text but made by Shelxfile.add_atom() after reading (they come last in shx.atoms)
+    for k in range(rng.choice([0, 0, 1, 2])):
+        p = add(org, [rng.uniform(-1.8, 1.8) for _ in range(3)])
+        atoms.append(dict(name=f'{rng.choice(["C", "N", "O"])}{40 + k}', resi=0, part=rng.choice(parts), q=False, cart=p, u=0.04, via='add'))
+
+    def some_queries(atoms, must=None):
+        qs = []
+        for k in range(rng.randint(3, 6)):
+            i = must if (must is not None and k == 0) else rng.randrange(len(atoms))
+            for _ in range(50):
+                d = round(rng.choice([rng.uniform(0.3, 1.2), rng.uniform(1.0, 2.5), rng.uniform(2.0, 4.5)]), 4)
+                if all(abs(norm(sub(a['cart'], atoms[i]['cart'])) - d) > 1e-4 for a in atoms):
+                    break
+            part = rng.choice(parts + [atoms[i]['part'], 0, 7, -atoms[i]['part']])
+            qs.append(dict(i=i, d=d, part=part))
+        return qs
+
+    case = dict(kind='around', cellkind=kind, cell=cell, atoms=atoms, queries=some_queries(atoms))
+    # a history: one atom is moved with the frac_coords setter after the first round of queries, then a second round
+    if rng.random() < 0.5:
         i = rng.randrange(len(atoms))
-        for _ in range(50):
-            d = round(rng.choice([rng.uniform(0.3, 1.2), rng.uniform(1.0, 2.5), rng.uniform(2.0, 4.5)]), 4)
-            if all(abs(norm(sub(a['cart'], atoms[i]['cart'])) - d) > 1e-4 for a in atoms):
-                break
-        part = rng.choice(parts + [atoms[i]['part'], 0, 7])
-        queries.append(dict(i=i, d=d, part=part))
-    return dict(kind='around', cellkind=kind, cell=cell, atoms=atoms, queries=queries)
+        new = add(org, [rng.uniform(-1.8, 1.8) for _ in range(3)])
+        after = [dict(a, cart=new) if k == i else a for k, a in enumerate(atoms)]
+        case['move'] = dict(i=i, cart=new)
+        case['queries2'] = some_queries(after, must=rng.choice([i, None]))
+    return case
 
 
 # ------------------------------------------------------------------------------------------------
@@ -303,6 +383,8 @@ def around_file(case):
             return None
         fracs.append(val)
         carts.append(c)
+        if a.get('via') == 'add':
+            continue
         if a['q'] and not ended:
             if part != 0:
                 lines.append('PART 0')
@@ -537,27 +619,40 @@ def check_distance(ctx, case, obs, d, ca, base):
 def eval_around(ctx, cases):
     from shelxfile import Shelxfile
     ctx.stream('around')
-    reqs, where, ctxs = [], [], []
+    reqs, where, files = [], [], []
     for ci, case in enumerate(cases):
         f = around_file(case)
-        ctxs.append(f)
+        if f is not None and 'move' in case:
+            m = ortho(case['cell'])
+            _, val, c = place(m, case['move']['cart'])
+            if max(abs(v) for v in val) > 3.9:
+                f = None
+            else:
+                k = case['move']['i']
+                f = f + ([x if n != k else val for n, x in enumerate(f[1])], [x if n != k else c for n, x in enumerate(f[2])])
+        files.append(f)
         if f is None:
             continue
-        _, fracs, _ = f
-        atoms = [dict(f=fr, part=a['part'], q=a['q']) for fr, a in zip(fracs, case['atoms'])]
-        for qi, q in enumerate(case['queries']):
-            reqs.append(dict(p='C15', op='around', cell=case['cell'], atoms=atoms, i=q['i'], d=q['d'], part=q['part']))
-            where.append((ci, qi))
+        for ph, (fracs, qs) in enumerate(((f[1], case['queries']), (f[3] if 'move' in case else None, case.get('queries2', [])))):
+            atoms = [dict(f=fr, part=a['part'], q=a['q']) for fr, a in zip(fracs or [], case['atoms'])]
+            for qi, q in enumerate(qs):
+                reqs.append(dict(p='C15', op='around', cell=case['cell'], atoms=atoms, i=q['i'], d=q['d'], part=q['part']))
+                where.append((ci, ph, qi))
     ans = ctx.driver.batch(reqs)
     drv = {w: r for w, r in zip(where, ans)}
     for ci, case in enumerate(cases):
-        if ctxs[ci] is None:
+        if files[ci] is None:
             ctx.note('generated coordinates left the range a SHELX atom line can carry; case skipped')
             continue
-        text, fracs, carts = ctxs[ci]
+        text = files[ci][0]
         base = dict(case=case, file=text, stream='around')
         shx = Shelxfile()
         shx.read_string(text)
+        for a, fr in zip(case['atoms'], files[ci][1]):
+            if a.get('via') == 'add':
+                r = call(shx.add_atom, a['name'], list(fr), a['name'][0], [a['u'], 0.0, 0.0, 0.0, 0.0, 0.0], a['part'])
+                if isinstance(r, str):
+                    ctx.fail('C15|around|add_atom', f'Shelxfile.add_atom with six U values: {r}', dict(base, actual=r), kind='correspondence')
         al = shx.atoms.all_atoms
         seen = [(a.name.upper(), a.resinum, a.part.n, bool(a.qpeak)) for a in al]
         want = [(a['name'].upper(), a['resi'], a['part'], a['q']) for a in case['atoms']]
@@ -566,52 +661,220 @@ def eval_around(ctx, cases):
                      dict(base, actual=seen), kind='correspondence')
             continue
         pos = {id(a): k for k, a in enumerate(al)}
-        for qi, q in enumerate(case['queries']):
-            i, dist, part = q['i'], q['d'], q['part']
-            ds = [norm(sub(c, carts[i])) for c in carts]
-            if any(abs(x - dist) < 1e-6 for x in ds):
-                continue   # too close to the threshold to be decided in floating point
-            brute = [j for j, a in enumerate(case['atoms']) if j != i and not a['q'] and a['part'] == part and ds[j] < dist]
-            r = drv[(ci, qi)]
-            got = call(al[i].find_atoms_around, dist, part)
-            twin = any(j != i and samepos(case, i, j) for j in range(len(case['atoms'])))
-            tags = [cellclass(case), 'around', f'found={min(len(brute), 5)}', f'part={part}',
-                    'centre=qpeak' if case['atoms'][i]['q'] else 'centre=atom']
-            if twin:
-                tags.append('twin-line-in-range')
-            if any(a['q'] and ds[j] < dist for j, a in enumerate(case['atoms']) if j != i):
-                tags.append('qpeak-in-range')
-            if any((not a['q']) and a['part'] != part and ds[j] < dist for j, a in enumerate(case['atoms']) if j != i):
-                tags.append('other-part-in-range')
-            ctx.count(['around', fracs, case['cell'], q], nontrivial=len(brute) > 0 or 'other-part-in-range' in tags, tags=tags,
-                      sample=dict(stream='around', cell=case['cell'], centre=case['atoms'][i]['name'], d=dist, part=part,
-                                  impl=got if isinstance(got, str) else [a.fullname for a in got]) if brute else None)
-            pay = dict(base, query=q, expected=brute, model=r['model'], spec=r['spec'])
-            if isinstance(got, str):
-                ctx.fail('C15|around|raise', f'find_atoms_around({dist}, {part}): {got}', dict(pay, actual=got))
+        for ph in (0, 1):
+            if ph == 1:
+                if 'move' not in case:
+                    break
+                r = call(setattr, al[case['move']['i']], 'frac_coords', list(files[ci][3][case['move']['i']]))
+                if isinstance(r, str):
+                    ctx.fail('C15|around|move', f'assigning Atom.frac_coords: {r}', dict(base, actual=r), kind='correspondence')
+                    break
+            fracs, carts = (files[ci][1], files[ci][2]) if ph == 0 else (files[ci][3], files[ci][4])
+            atoms = case['atoms'] if ph == 0 else [dict(a, cart=case['move']['cart']) if k == case['move']['i'] else a
+                                                   for k, a in enumerate(case['atoms'])]
+            for qi, q in enumerate(case['queries'] if ph == 0 else case['queries2']):
+                around_query(ctx, case, atoms, al, pos, fracs, carts, q, drv[(ci, ph, qi)], base, ph)
+
+
+def around_query(ctx, case, atoms, al, pos, fracs, carts, q, r, base, ph):
+    i, dist, part = q['i'], q['d'], q['part']
+    ds = [norm(sub(c, carts[i])) for c in carts]
+    if any(abs(x - dist) < 1e-6 for x in ds):
+        return   # too close to the threshold to be decided in floating point
+    n = len(atoms)
+    same = lambda a, b: atoms[a]['name'] == atoms[b]['name'] and atoms[a]['cart'] == atoms[b]['cart']
+    brute = [j for j, a in enumerate(atoms) if j != i and not a['q'] and a['part'] == part and ds[j] < dist]
+    got = call(al[i].find_atoms_around, dist, part)
+    inrange = [j for j in range(n) if j != i and ds[j] < dist]
+    tags = [cellclass(case), 'around', f'found={min(len(brute), 5)}', f'part={part}',
+            'centre=qpeak' if atoms[i]['q'] else 'centre=added' if atoms[i].get('via') == 'add' else 'centre=atom']
+    if any(same(i, j) for j in range(n) if j != i):
+        tags.append('twin-line-in-range')
+    if any(atoms[j]['q'] for j in inrange):
+        tags.append('qpeak-in-range')
+    if any(not atoms[j]['q'] and atoms[j]['part'] != part for j in inrange):
+        tags.append('other-part-in-range')
+    if any(not atoms[j]['q'] and atoms[j]['part'] == -part != part for j in inrange):
+        tags.append('opposite-part-in-range')
+    if any(atoms[j].get('via') == 'add' for j in inrange):
+        tags.append('added-atom-in-range')
+    if ph == 1:
+        tags.append('after-move')
+        if 'move' in case and (case['move']['i'] == i or case['move']['i'] in inrange):
+            tags.append('moved-atom-involved')
+    ctx.count(['around', fracs, case['cell'], q], nontrivial=len(brute) > 0 or 'other-part-in-range' in tags, tags=tags,
+              sample=dict(stream='around', cell=case['cell'], centre=atoms[i]['name'], d=dist, part=part,
+                          impl=got if isinstance(got, str) else [a.name for a in got]) if brute else None)
+    pay = dict(base, query=q, round=ph, expected=brute, model=r['model'], spec=r['spec'])
+    if isinstance(got, str):
+        ctx.fail('C15|around|raise', f'find_atoms_around({dist}, {part}): {got}', dict(pay, actual=got))
+        return
+    try:
+        idx = sorted(pos[id(a)] for a in got)
+    except KeyError:
+        ctx.fail('C15|around|foreign', 'find_atoms_around returned an object that is not an atom of the file', dict(pay, actual=repr(got)))
+        return
+    pay['actual'] = idx
+    if r['spec'] != brute:
+        raise core.LeanError(f'C15: specification ({r["spec"]}) and brute force ({brute}) differ on {q} of {case}')
+    if idx != brute:
+        miss = sorted(set(brute) - set(idx))
+        extra = sorted(set(idx) - set(brute))
+        why = []
+        for j in miss + extra:
+            a = atoms[j]
+            why.append('self' if j == i else 'twin' if same(i, j) else 'qpeak' if a['q'] else 'part' if a['part'] != part else 'distance')
+        sig = 'C15|around|' + ('missing' if miss else 'extra') + '|' + '+'.join(sorted(set(why)))
+        names = [a['name'] + '_' + str(a['resi']) for a in atoms]
+        ctx.fail(sig, f'find_atoms_around(dist={dist}, only_part={part}) of {names[i]}{" (after an atom was moved)" if ph else ""} returns '
+                 f'{[names[j] for j in idx]}; the other non-Q-peak atoms of PART {part} within {dist} A are {[names[j] for j in brute]}', pay)
+    elif sorted(r['model'] or []) != idx:
+        ctx.fail('C15|around|model', f'find_atoms_around gives {idx}, the model {r["model"]}', pay, kind='correspondence')
+
+
+# ------------------------------------------------------------------------------------------------
+# atoms that entered the model in other ways than through the file text
+
+SIX_U = [0.04, 0.0, 0.0, 0.0, 0.0, 0.0]
+QUANT = (('ang', 'angle', (0, 1, 2)), ('ang2', 'angle', (1, 2, 3)), ('tor', 'torsion', (0, 1, 2, 3)),
+         ('d12', 'distance', (0, 1)), ('d34', 'distance', (2, 3)), ('d14', 'distance', (0, 3)))
+
+
+def observe_four(A, at, names=None):
+    """the six quantities of QUANT for four atom objects (distances go by name, so only for atoms of the list)"""
+    o = dict(ang=call(A.angle, at[0], at[1], at[2]), ang2=call(A.angle, at[1], at[2], at[3]), tor=call(A.torsion_angle, *at))
+    if names:
+        o.update(d12=call(A.distance, names[0], names[1]), d34=call(A.distance, names[2], names[3]), d14=call(A.distance, names[0], names[3]))
+    return o
+
+
+def compare_four(ctx, obs, drv, origin, base, tag, key):
+    """obs: implementation; drv: model+spec of op geomfrac; origin: how each of the four atoms entered the model"""
+    for name, stream, idx in QUANT:
+        if name not in obs:
+            continue
+        via = '+'.join(sorted({origin[k] for k in idx}))
+        got, spec, model = obs[name], drv[name]['spec'], drv[name]['model']
+        tol = TOL_DEG if stream != 'distance' else TOL_DIST
+        ctx.count([key, name], nontrivial=via != 'parsed', tags=tag + [stream, f'{stream} via=' + via],
+                  sample=dict(stream=stream, via=via, what=name, impl=got, spec=spec) if via != 'parsed' and name == 'tor' else None)
+        pay = dict(base, stream=stream, which=name, via=via, expected=spec, actual=got, model=model)
+        if not isnum(got):
+            ctx.fail(f'C15|{stream}|raise|via={via}', f'{stream} of atoms that entered the model as {via}: {got}', pay)
+        elif not core.close(got, spec, tol, 1e-12 if stream == 'distance' else 0):
+            ctx.fail(f'C15|{stream}|value|via={via}', f'{stream} ({name}) of atoms that entered the model as {via} ({tag[-1]}): the '
+                     f'implementation gives {got}, the Cartesian positions of their fractional coordinates give {spec}', pay)
+        elif not core.close(got, model, tol, 1e-12 if stream == 'distance' else 0):
+            ctx.fail(f'C15|{stream}|model|via={via}', f'{stream} {got} differs from the model {model}', pay, kind='correspondence')
+        elif stream == 'torsion' and not (-180.0 < got <= 180.0) or stream == 'angle' and not (0.0 <= got <= 180.0):
+            ctx.fail(f'C15|{stream}|range', f'{stream} {got} outside its range', pay)
+
+
+def eval_route(ctx, cases):
+    from shelxfile import Shelxfile
+    for s in ('angle', 'torsion', 'distance'):
+        ctx.stream(s)
+    prepared, reqs = [], []
+    for case in cases:
+        m = ortho(case['cell'])
+        first = [place(m, p) for p in case['first']]
+        last = [place(m, p) for p in case['pts']]
+        if max(abs(v) for _, val, _ in first + last for v in val) > 3.9:
+            prepared.append(None)
+            continue
+        prepared.append((first, last))
+        # round 1: atoms made by add_atom carry misc.frac_to_cart coordinates; round 2: moved atoms carry matrix coordinates
+        reqs.append(dict(p='C15', op='geomfrac', cell=case['cell'], fracs=[v for _, v, _ in first],
+                         added=[r.startswith('added') for r in case['routes']]))
+        reqs.append(dict(p='C15', op='geomfrac', cell=case['cell'], fracs=[v for _, v, _ in last],
+                         added=[r == 'added' for r in case['routes']]))
+    ans = ctx.driver.batch(reqs)
+    k = 0
+    for case, pre in zip(cases, prepared):
+        if pre is None:
+            ctx.note('generated coordinates left the range a SHELX atom line can carry; case skipped')
+            continue
+        d1, d2 = ans[k], ans[k + 1]
+        k += 2
+        first, last = pre
+        names = ['C1', 'C2', 'C3', 'C4']
+        lines = [HEAD.format(*case['cell']).rstrip('\n')]
+        for n, r, (txt, _, _) in zip(names, case['routes'], first):
+            if not r.startswith('added'):
+                lines.append(atom_line(n, txt))
+        text = '\n'.join(lines + ['HKLF 4', 'END']) + '\n'
+        base = dict(case=case, file=text)
+        shx = Shelxfile()
+        shx.read_string(text)
+        bad = None
+        for n, r, (_, val, _) in zip(names, case['routes'], first):
+            if r.startswith('added'):
+                x = call(shx.add_atom, n, list(val), 'C', list(SIX_U))
+                bad = x if isinstance(x, str) else bad
+        at = {a.name.upper(): a for a in shx.atoms.all_atoms}
+        if bad or sorted(at) != names:
+            ctx.fail('C15|parse', f'atoms after read_string + add_atom: {sorted(at)} expected {names} ({bad})', dict(base, stream='angle'),
+                     kind='correspondence')
+            continue
+        four = [at[n] for n in names]
+        tag = [cellclass(case), 'kind=route']
+        origin1 = ['added' if r.startswith('added') else 'parsed' for r in case['routes']]
+        compare_four(ctx, observe_four(shx.atoms, four, names), d1, origin1, dict(base, round=1), tag + ['before the moves'],
+                     ['route', 1, case['cell'], [v for _, v, _ in first], case['routes']])
+        moved = False
+        for a, r, (_, val, _) in zip(four, case['routes'], last):
+            if 'moved' in r:
+                x = call(setattr, a, 'frac_coords', list(val))
+                moved = True
+                if isinstance(x, str):
+                    ctx.fail('C15|route|move', f'assigning Atom.frac_coords: {x}', dict(base, stream='angle', actual=x), kind='correspondence')
+        if moved:
+            origin2 = ['moved' if 'moved' in r else o for r, o in zip(case['routes'], origin1)]
+            compare_four(ctx, observe_four(shx.atoms, four, names), d2, origin2, dict(base, round=2),
+                         tag + ['after the atoms were moved (same object, second call)'],
+                         ['route', 2, case['cell'], [v for _, v, _ in last], case['routes']])
+
+
+def eval_grow(ctx, cases):
+    from shelxfile import Shelxfile
+    for s in ('angle', 'torsion'):
+        ctx.stream(s)
+    for case in cases:
+        m = ortho(case['cell'])
+        placed = [place(m, p) for p in case['pts']]
+        lines = [HEAD.format(*case['cell']).replace('LATT -1', 'LATT 1').rstrip('\n')]
+        lines += [atom_line(f'C{k + 1}', txt) for k, (txt, _, _) in enumerate(placed)]
+        text = '\n'.join(lines + ['HKLF 4', 'END']) + '\n'
+        base = dict(case=case, file=text)
+        shx = Shelxfile()
+        shx.read_string(text)
+        with contextlib.redirect_stdout(io.StringIO()):   # the library prints while growing
+            g = call(shx.grow)
+        if isinstance(g, str):
+            ctx.note(f'grow() raised ({g}); not a C15 observable, case skipped')
+            continue
+        orig = {a.name.upper(): a for a in g if not a.symmgen}
+        img = {a.name.upper()[:2]: a for a in g if a.symmgen}
+        if sorted(orig) != ['C1', 'C2', 'C3'] or sorted(img) != ['C1', 'C2', 'C3'] or len(g) != 6:
+            ctx.count(['grow', case['cell'], case['pts']], nontrivial=False, tags=['kind=grow', 'grow: image not generated (C14)'])
+            continue
+        quads = (('C3', 'C2', 'C1', "C1'"), ('C2', 'C1', "C1'", "C3'"), ("C3'", "C2'", "C1'", 'C1'))
+        pick = lambda n: img[n[:2]] if n.endswith("'") else orig[n]
+        reqs = []
+        for q in quads:
+            four = [pick(n) for n in q]
+            reqs.append(dict(p='C15', op='geomfrac', cell=case['cell'], fracs=[list(map(float, a.frac_coords)) for a in four],
+                             added=[bool(a.symmgen) for a in four]))
+        ans = ctx.driver.batch(reqs)
+        for q, rq, d in zip(quads, reqs, ans):
+            four = [pick(n) for n in q]
+            carts = [matvec(m, f) for f in rq['fracs']]
+            if not general(carts):
                 continue
-            try:
-                idx = sorted(pos[id(a)] for a in got)
-            except KeyError:
-                ctx.fail('C15|around|foreign', 'find_atoms_around returned an object that is not an atom of the file', dict(pay, actual=repr(got)))
-                continue
-            pay['actual'] = idx
-            if r['spec'] != brute:
-                raise core.LeanError(f'C15: specification ({r["spec"]}) and brute force ({brute}) differ on {q} of {case}')
-            if idx != brute:
-                miss = sorted(set(brute) - set(idx))
-                extra = sorted(set(idx) - set(brute))
-                why = []
-                for j in miss + extra:
-                    a = case['atoms'][j]
-                    why.append('self' if j == i else 'twin' if samepos(case, i, j) else 'qpeak' if a['q']
-                               else 'part' if a['part'] != part else 'distance')
-                sig = 'C15|around|' + ('missing' if miss else 'extra') + '|' + '+'.join(sorted(set(why)))
-                names = [case['atoms'][j]['name'] + '_' + str(case['atoms'][j]['resi']) for j in range(len(case['atoms']))]
-                ctx.fail(sig, f'find_atoms_around(dist={dist}, only_part={part}) of {names[i]} returns {[names[j] for j in idx]}; the other '
-                         f'non-Q-peak atoms of PART {part} within {dist} A are {[names[j] for j in brute]}', pay)
-            elif sorted(r['model'] or []) != idx:
-                ctx.fail('C15|around|model', f'find_atoms_around gives {idx}, the model {r["model"]}', pay, kind='correspondence')
+            compare_four(ctx, observe_four(shx.atoms, four), d, ['grown' if a.symmgen else 'parsed' for a in four],
+                         dict(base, quadruple=q), [cellclass(case), 'kind=grow', 'atoms returned by grow()'],
+                         ['grow', case['cell'], rq['fracs'], q])
+
 
 
 def samepos(case, i, j):
@@ -627,6 +890,12 @@ def evaluate(ctx, cases, stream=None):
         eval_geom(ctx, geom, stream if stream in ('angle', 'torsion', 'distance') else None)
     if arnd:
         eval_around(ctx, arnd)
+    rts = [c for c in cases if c['kind'] == 'route']
+    if rts:
+        eval_route(ctx, rts)
+    grw = [c for c in cases if c['kind'] == 'grow']
+    if grw:
+        eval_grow(ctx, grw)
 
 
 def run(ctx):
@@ -647,5 +916,9 @@ def run(ctx):
         cases.append(make_geom(ctx.rng))
     for _ in range(m):
         cases.append(make_around(ctx.rng))
+    for _ in range(ctx.budget(1200, 20000)):
+        cases.append(make_route(ctx.rng))
+    for _ in range(ctx.budget(250, 4000)):
+        cases.append(make_grow(ctx.rng))
     for i in range(0, len(cases), 1000):
         evaluate(ctx, cases[i:i + 1000])
